@@ -1,6 +1,6 @@
 (* Obligations relating the text regenerated from config/core.py on this run to the model the
    theorems are about.  Compiled in build/C18/gen against Gen.C18_Extracted. *)
-From AV Require Import lib.Tree model.C18_Model.
+From AV Require Import lib.Tree model.C18_Model proofs.C18_Proofs.
 From Gen Require Import C18_Extracted.
 
 Theorem C18_link_deep_update : deep_update = du.
@@ -10,3 +10,17 @@ Print Assumptions C18_link_deep_update.
 Theorem C18_link_load_composition : forall d f k, load_effective d f k = effective d f k.
 Proof. reflexivity. Qed.
 Print Assumptions C18_link_load_composition.
+
+(* the singleton is registered unconditionally by the last after-validator, and nowhere else:
+   the machine the theorems are about is the one with late = true *)
+Theorem C18_link_late_registration : late_registration = true.
+Proof. reflexivity. Qed.
+Print Assumptions C18_link_late_registration.
+
+Theorem C18_link_machine : forall d ops s, run d late_registration s ops = spec_run d s ops.
+Proof. exact AV.proofs.C18_Proofs.run_refines_spec. Qed.
+Print Assumptions C18_link_machine.
+
+Theorem C18_link_models_frozen : all_models_frozen = true.
+Proof. reflexivity. Qed.
+Print Assumptions C18_link_models_frozen.
